@@ -28,6 +28,7 @@ def main():
     violations = []   # (replay_path, suffix)
     known_lines = []
     notes = []
+    table_broken = None
 
     # ---- 1. proofs: build, tamper scan, Print Assumptions
     ok, out, build_s = core.build_coq()
@@ -48,6 +49,7 @@ def main():
         t_ok, t_msg = mod.tables()
         if not t_ok:
             notes.append("generated tables differ: " + t_msg[-500:])
+            table_broken = t_msg[-800:]
 
     # ---- 3. cases
     rng = random.Random(seed)
@@ -110,14 +112,23 @@ def main():
             continue
         (failing if is_fail else divergent).append((case, impl_o))
 
-    size = getattr(mod, "size", lambda c: len(json.dumps(c, default=str)))
+    _size = getattr(mod, "size", lambda c: len(json.dumps(c, default=str)))
+
+    def size(c):
+        try:
+            return _size(c)
+        except Exception:  # noqa: BLE001  (extra-check inputs have their own shape)
+            return 0
     if failing:
         failing.sort(key=lambda ci: size(ci[0]))
         case, impl_o = failing[0]
         payload = {"property": pid, "kind": "failing-input", "seed": seed, "tier": args.tier, "input": case,
                    "impl": repr(impl_o), "n_failing": len(failing), "correspondence": f"corr_{pid}"}
         if hasattr(mod, "explain"):
-            payload["expected"] = mod.explain(case)
+            try:
+                payload["expected"] = mod.explain(case)
+            except Exception:  # noqa: BLE001
+                pass
         violations.append((core.write_replay(pid, payload), ""))
     elif divergent:
         # model differs from the code although the executable statement still holds on these inputs:
@@ -134,6 +145,12 @@ def main():
                                         "first_divergent_input": divergent[0][0], "impl": repr(divergent[0][1]),
                                         "n_divergent": len(divergent), "theorems": core.theorems_of(pid)})
             violations.append((p, " no-failing-input-found"))
+
+    if table_broken and not any(sfx == "" for _, sfx in violations):
+        p = core.write_replay(pid, {"property": pid, "kind": "broken-correspondence",
+                                    "correspondence": f"Gen/TablesOk_{pid}.v (constants re-extracted from /repo no longer equal the model's)",
+                                    "detail": table_broken})
+        violations.append((p, " no-failing-input-found"))
 
     # ---- 8. evidence
     keyf = getattr(mod, "key", lambda c: json.dumps(c, sort_keys=True, default=str))
@@ -169,4 +186,14 @@ def main():
 
 
 if __name__ == "__main__":
-    main()
+    try:
+        main()
+    except SystemExit:
+        raise
+    except BaseException as exc:  # noqa: BLE001 - a crash of the machinery must not look like a pass
+        import traceback
+        pid = sys.argv[1].upper() if len(sys.argv) > 1 else "C00"
+        p = core.write_replay(pid, {"property": pid, "kind": "broken-correspondence", "correspondence": f"corr_{pid} (harness crashed)",
+                                    "traceback": traceback.format_exc()[-3000:]})
+        print(f"VIOLATION property={pid} replay={p} no-failing-input-found")
+        sys.exit(1)
